@@ -216,7 +216,8 @@ def gen_c07(tier, seed):
             for rep in range(3):
                 combos.append((tr + tuple(r.choice(TOS) for _ in range(3)), gi * 3 + rep))
         while len(combos) < 6000:
-            combos.append((tuple(r.choice(ACTS) for _ in range(3)) + tuple(r.choice(TOS) for _ in range(3)),
+            # the random part also uses other out-of-range action values
+            combos.append((tuple(r.choice(ACTS[:4] * 4 + [7, -1, 4, 2147483647]) for _ in range(3)) + tuple(r.choice(TOS) for _ in range(3)),
                            len(combos)))
     for g, idx in combos:
         r = rng_for(seed, "c07", idx)
@@ -260,7 +261,7 @@ def gen_c15(tier, seed):
         if default_policy:
             acts = [(NOOP, 0)] * 3
         else:
-            acts = [(r.choice(ACTS[:4]), r.choice(TOS)) for _ in range(3)]
+            acts = [(r.choice(ACTS[:4] + ([7] if r.random() < 0.15 else [])), r.choice(TOS)) for _ in range(3)]
         m = {"exit_at": r.choice(CHILD_EXITS), "exit_code": r.randrange(256),
              "term": r.choice(TERM_BEH), "skill": r.choice(["now", "d17"]),
              "dl": r.choice([0, 60, 10]), "state": state, "acts": acts, "default": default_policy}
